@@ -23,6 +23,7 @@ import logging
 import re
 from abc import abstractmethod
 from dataclasses import dataclass
+from functools import cached_property
 from types import CodeType
 from typing import TYPE_CHECKING, Protocol, TypeAlias, cast
 
@@ -117,6 +118,19 @@ class ModuleAstInfo:
                 f"Conflicting cover lines {sorted(overlap)} "
                 f"are present in both only_cover and no_cover sets"
             )
+
+    @cached_property
+    def only_cover_ranges(self) -> tuple[tuple[int, int], ...]:
+        """The line ranges of the scopes that are listed in ``only_cover``.
+
+        Returns:
+            The first and the last line of each of these scopes
+        """
+        return tuple(
+            scope_line_range(scope)
+            for scope in nodes_of_class(self.module_ast, SCOPE_CLASSES)
+            if scope_line_range(scope)[0] in self.only_cover_lines
+        )
 
     def get_scope(self, lineno: int) -> AstInfo | None:
         """Get the AST info of the scope.
@@ -322,6 +336,7 @@ class AstInfo:
                 )
                 if child_lineno not in self.module.no_cover_lines
             )
+            or any(start <= lineno <= end for start, end in self.module.only_cover_ranges)
         )
 
     @staticmethod
